@@ -159,6 +159,7 @@ fn is_ph(n: &Node) -> bool {
 fn strip_ph(t: &Tbl) -> Tbl {
     let mut out = Tbl::new(t.kind);
     out.order_ambiguous = t.order_ambiguous;
+    out.floating = t.floating.clone();
     for (k, n) in &t.entries {
         if is_ph(n) {
             continue;
@@ -631,6 +632,7 @@ fn expected_after_print(m: &Tbl) -> Tbl {
     fn prune(t: &Tbl) -> Tbl {
         let mut out = Tbl::new(t.kind);
         out.order_ambiguous = t.order_ambiguous;
+        out.floating = t.floating.clone();
         for (k, n) in &t.entries {
             if let Some(m) = prune_node(n) {
                 out.entries.push((k.clone(), m));
@@ -659,6 +661,7 @@ fn partition(t: &Tbl) -> Tbl {
     // siblings is decided by its children's headers and can change when one of them is removed;
     // the order among the children of such a parent is compared as a set (same class as U2.c)
     out.order_ambiguous = t.order_ambiguous
+        || !t.floating.is_empty()
         || t.entries.iter().any(|(_, n)| matches!(n, Node::Table(x) if x.kind == TblKind::Implicit || (x.kind == TblKind::Dotted && !has_leaf(x))))
         // an implicit table that received values gets a header of its own, printed after the
         // headers of its children (sub-table before super-table, U2.c)
@@ -761,7 +764,7 @@ fn mark_all_ambiguous(t: &mut Tbl) {
 }
 
 fn mark_ambiguous(got: &mut Tbl, want: &Tbl) {
-    if want.order_ambiguous {
+    if want.order_ambiguous || !want.floating.is_empty() {
         got.order_ambiguous = true;
     }
     for (k, n) in got.entries.iter_mut() {
